@@ -29,6 +29,7 @@ void harness(void){
   unsigned char buf[LEN+XP+1], orig[LEN+1];
   for(int i=0;i<LEN;i++){ buf[i]=vt_uchar(); orig[i]=buf[i]; }
   unsigned char guard=vt_uchar(); for(int i=LEN;i<=LEN+XP;i++) buf[i]=guard;
+  __CPROVER_assume((orig[0]&3)!=3 || LEN<2 || (orig[1]&0x3F)<=CMAX);    /* stated bound on the frame count of stream 0, before its count byte is used */
   rfc_pkt m0=rfc_parse(orig,LEN,1);
   int off0 = m0.valid ? m0.consumed : 0;
   rfc_pkt m1; m1.valid=0; m1.count=0;
@@ -39,7 +40,6 @@ void harness(void){
   /* stated bound on the frame counts */
   __CPROVER_assume(!m0.valid || m0.count<=CMAX);
   __CPROVER_assume(!valid || m1.count<=CMAX);
-  __CPROVER_assume((orig[0]&3)!=3 || LEN<2 || (orig[1]&0x3F)<=CMAX);
 #ifndef UNPAD_ONLY
   int new_len=LEN+vt_range(0,XP);
   /* the last stream must be padding-free for the extension stub to be valid in opus_packet_pad */
